@@ -10,7 +10,7 @@ import ast
 from ..astutil import AnalysisError, attr_chain, call_attr, chains_read, dotted, iter_calls, kw, src
 from ..facts import has_fact, path_facts
 from ..flow import backward_slice
-from ..rules import structure
+from ..rules import commute, structure
 from ..rules.commute import column_effect
 from ..rules import optional as optional_rules
 from .common import IT_ENGINE, LEAF, MARKER, OPREL, Ctx, describe, new_run
@@ -38,6 +38,7 @@ def check(model, tier):
     m, k = model, ctx.k
     structure.r06_1_flags(ctx)
     optional_rules.r_optional_truthiness(ctx, "R06.5")
+    commute.r04_4_set_formulas(ctx, rule="R06.6")
 
     run.rule("R06.2", "node metadata delegates: operation nodes ask their operation with their own operand(s) in order; markers delegate to their target; leaves validate max_rows >= min_rows", 10)
     for cname, operands in (("UnaryOperationRelation", ["self.target"]), ("BinaryOperationRelation", ["self.lhs", "self.rhs"])):
